@@ -259,6 +259,7 @@ func (sm *segmentManager) get(segmentID uint64) *segmentMetadata {
 
 // list returns all segments (oldest first).
 func (sm *segmentManager) list() []*segmentMetadata {
+	verifPoint("segmgr.list")
 	sm.mu.RLock()
 	defer sm.mu.RUnlock()
 
